@@ -119,8 +119,17 @@ def s3(run, roles, L):
     """which session bit decides: def-use + dominance, independent of how the function is laid out"""
     mod = roles.mod
     fn = roles.funcs.get("is_parameter_encryption")
+    sess0 = L.struct_types.get("TPMA_SESSION")
+    masks0 = next((b.masks for b in sess0.mro() if b.masks is not None), {}) if sess0 is not None else {}
     if fn is None:
-        raise AnalysisError("C09: is_parameter_encryption not found")
+        # no predicate function of that name: whatever computes the request is evaluated where its result is used (the
+        # normal form of tpmsa.encreq: S2 for the stream, C01-F for the two message walkers), so the which-bit / which-area /
+        # no-sessions obligations are carried by those sites
+        run.ob("S3", "encrypt" in masks0 and "decrypt" in masks0 and masks0.get("encrypt") != masks0.get("decrypt"),
+               "TPMA_SESSION has distinct encrypt / decrypt bits", f"masks: {masks0}", module=sess0.module if sess0 else mod,
+               node=sess0.node if sess0 else mod.tree, func="TPMA_SESSION", construct="TPMA_SESSION encrypt/decrypt")
+        run.info("S3: there is no is_parameter_encryption function; the encryption request is judged in its normal form at the use sites")
+        return
     params = [a.arg for a in fn.args.args]
     dflt = dict(zip(params[len(params) - len(fn.args.defaults):], fn.args.defaults))
     # parameters by role: the direction flag (default False), optionally a command whose session area is read, the session area
@@ -141,6 +150,44 @@ def s3(run, roles, L):
     run.ob("S3", "encrypt" in masks and "decrypt" in masks and masks.get("encrypt") != masks.get("decrypt"),
            "TPMA_SESSION has distinct encrypt / decrypt bits", f"masks: {masks}", module=sess.module if sess else mod,
            node=sess.node if sess else fn, func="TPMA_SESSION", construct="TPMA_SESSION encrypt/decrypt")
+    # ---- first choice: the normal form of the predicate (tpmsa.encreq), through whatever it delegates to
+    from .. import encreq
+    forms = []
+    try:
+        for side in (False, True):
+            calls = [(f"{fn.name}({p_area}=A, {p_resp}={side})", {"A"}, (), "A")]
+            if p_cmd is not None:
+                calls.append((f"{fn.name}({p_cmd}=C, {p_resp}={side})", {"C"}, ("C",), "C.authorizationArea"))
+            for txt, free, nonnull, area in calls:
+                t = encreq.evaluate(roles.project, mod, ast.parse(txt, mode="eval").body, free, nonnull)
+                if not isinstance(t, dict):
+                    raise encreq.Unsupported(f"`{txt}` is not a function of one session area")
+                forms.append((side, txt, area, t))
+    except encreq.Unsupported as ex:
+        run.info(f"S3: normal form of {fn.name} not available ({ex}); judged on its path summaries")
+        forms = None
+    if forms is not None:
+        for side, txt, area, t in forms:
+            want = "encrypt" if side else "decrypt"
+            who = "responses" if side else "commands"
+            run.ob("S3", t["bit"] == want, f"{who} [{txt}]: the `{want}` attribute decides",
+                   f"for `{txt}` the decoder consults `{t['bit']}`; TPM 2.0 parameter encryption uses `encrypt` for the response direction "
+                   "and `decrypt` for the command direction", module=mod, node=fn, func=fn.name, construct=f"is_parameter_encryption [{who}]")
+            got_area = norm(t["area"])
+            run.ob("S3", got_area == area, f"[{txt}]: iterates the given session area ({area})",
+                   f"`{txt}` iterates `{got_area}`, not the command's / the given session area ({area})", module=mod, node=fn, func=fn.name,
+                   construct="is_parameter_encryption area")
+            run.ob("S3", t["absent"] in (False, None), "no session area -> no encryption (tested before the sessions are iterated)",
+                   f"`{txt}` without a session area gives {t['absent']!r}: a None session area is not answered with False before it is iterated",
+                   module=mod, node=fn, func=fn.name, construct="is_parameter_encryption [no sessions]")
+            run.ob("S3", t["any"] is True and t["none"] in (False, None), f"[{txt}]: True exactly when a session asks",
+                   f"`{txt}` gives {t['any']!r} when a session sets the bit and {t['none']!r} when none does", module=mod, node=fn,
+                   func=fn.name, construct="is_parameter_encryption other return")
+        d = dict(zip(params[len(params) - len(fn.args.defaults):], fn.args.defaults))
+        run.ob("S3", p_resp in d and isinstance(d[p_resp], ast.Constant) and d[p_resp].value is False,
+               "default direction is command", "for_response default changed", module=mod, node=fn, func=fn.name,
+               construct="for_response default")
+        return
     # decided on the path summaries: what is returned as a function of (command given?, area absent?, direction)
     S = paths.Summariser(mod, fn)
     ps = [p for p in S.paths() if not (p.end == "raise" and p.value is not None and norm(p.value) == "AssertionError")]
